@@ -34,8 +34,9 @@ type Res struct {
 	Peak   uint64 // peak heap growth during the case (sampled)
 	Alloc  uint64 // bytes allocated during the case
 	Detail string // ok: result info; err: message; panic: class|site|loc|msg; crash: class|site|loc|msg
-	CPUms  int64  // CPU time the child spent on this case (isolation mode only, else 0)
-	Over   string // "site|loc" where the decoder was when the heap watchdog first saw the budget exceeded
+	CPUus  int64  // CPU time (user+system, microseconds) the child process spent on this case; for a
+	// watchdog timeout: the CPU time consumed until the kill, read from /proc/<pid>/stat (10 ms ticks)
+	Over string // "site|loc" where the decoder was when the heap watchdog first saw the budget exceeded
 }
 
 func (r Res) panicParts() (class, site, loc, msg string) {
@@ -49,8 +50,14 @@ func (r Res) panicParts() (class, site, loc, msg string) {
 type runCfg struct {
 	Workers int
 	Timeout time.Duration
-	ASLimit uint64 // RLIMIT_AS for children (0 = none)
-	NoHeap  bool   // the peak heap is not needed (C08): children run with GOMAXPROCS=1 and a slow sampler
+	ASLimit uint64               // RLIMIT_AS for children (0 = none)
+	NoHeap  bool                 // the peak heap is not needed (C08): children run with GOMAXPROCS=1 and a slow sampler
+	Skip    func(c *Case) string // consulted right before a case is handed to a child (global brake); nil = never
+	// CPUNeed (isolated confirmations): when the wall watchdog fires and the case has not yet consumed this
+	// much CPU time (µs), it is left running — until it has, or until WallCap of wall time has passed
+	CPUNeed func(c *Case) int64
+	WallCap time.Duration
+	Note    func(c *Case, r *Res) // told every result as it arrives (feeds the brake); nil = none
 }
 
 type child struct {
@@ -187,48 +194,73 @@ func ClosePool() {
 	}
 }
 
-// runChunk runs cases[lo:hi) on one child (restarting as needed), filling res.
+// runChunk runs cases[lo:hi) on one child (restarting as needed), filling res. At most `window`
+// cases are in flight, so that cfg.Skip sees the results of the cases just before.
 func runChunk(cfg runCfg, cases []Case, res []Res, lo, hi int) {
-	i := lo
-	for i < hi {
+	const window = 6
+	next := lo // next case to hand out
+	for next < hi {
 		ch, err := pool.get(cfg)
 		if err != nil {
-			for ; i < hi; i++ {
-				res[i] = Res{Status: "crash", Detail: "harness|startChild|-|" + err.Error()}
+			for ; next < hi; next++ {
+				res[next] = Res{Status: "crash", Detail: "harness|startChild|-|" + err.Error()}
 			}
 			return
 		}
-		// feed the remaining cases without blocking the reader
-		from := i
+		feed := make(chan int, window)
 		go func() {
 			w := bufio.NewWriterSize(ch.in, 1<<16)
-			for k := from; k < hi; k++ {
+			for k := range feed {
 				c := &cases[k]
 				fmt.Fprintf(w, "%d %s %s %s %d\n", k, c.Entry, hexs(c.Data), c.FI.String(), c.Budget)
 				if w.Flush() != nil {
+					for range feed {
+					}
 					return
 				}
 			}
 		}()
+		var pending []int
+		lastCPU := max(0, procCPUms(ch.cmd.Process.Pid)) // child CPU (ms) when the previous result arrived
 		restart := false
-		var cpuBase int64 // CPU time of the child before the outstanding case (tracked in isolation mode only)
-		if cfg.Workers == 1 {
-			cpuBase = max(0, procCPUms(ch.cmd.Process.Pid))
-		}
-		for i < hi && !restart {
-			timer := time.NewTimer(cfg.Timeout + 500*time.Millisecond) // + process start / pipe slack
+		head := -1
+		var headStart time.Time
+		var ext time.Duration
+		for !restart && (next < hi || len(pending) > 0) {
+			for len(pending) < window && next < hi {
+				if cfg.Skip != nil {
+					if why := cfg.Skip(&cases[next]); why != "" {
+						res[next] = Res{Status: "skipped", Detail: why}
+						next++
+						continue
+					}
+				}
+				feed <- next
+				pending = append(pending, next)
+				next++
+			}
+			if len(pending) == 0 {
+				break
+			}
+			i := pending[0]
+			if i != head {
+				head, headStart, ext = i, time.Now(), 0
+			}
+			timer := time.NewTimer(time.Until(headStart.Add(cfg.Timeout + 500*time.Millisecond + ext))) // + process start / pipe slack
 			select {
 			case l, ok := <-ch.lines:
 				timer.Stop()
 				if !ok { // child died while case i was outstanding
 					_ = ch.cmd.Wait()
 					res[i] = crashRes(ch.stderr.String(), ch.cmd.ProcessState.String())
-					i++
+					if cfg.Note != nil {
+						cfg.Note(&cases[i], &res[i])
+					}
 					restart = true
 					break
 				}
-				f := strings.SplitN(l, "\t", 6)
-				if len(f) < 6 {
+				f := strings.SplitN(l, "\t", 7)
+				if len(f) < 7 {
 					continue
 				}
 				id, _ := strconv.Atoi(f[0])
@@ -238,25 +270,40 @@ func runChunk(cfg runCfg, cases []Case, res []Res, lo, hi int) {
 				ms, _ := strconv.ParseInt(f[2], 10, 64)
 				pk, _ := strconv.ParseUint(f[3], 10, 64)
 				al, _ := strconv.ParseUint(f[4], 10, 64)
-				det, over := f[5], ""
+				cpu, _ := strconv.ParseInt(f[5], 10, 64)
+				det, over := f[6], ""
 				if k := strings.Index(det, "\x1fover="); k >= 0 {
 					det, over = det[:k], det[k+6:]
 				}
-				res[i] = Res{Status: f[1], Ms: ms, Peak: pk, Alloc: al, Detail: det, Over: over}
-				if cfg.Workers == 1 {
-					now := max(0, procCPUms(ch.cmd.Process.Pid))
-					res[i].CPUms = now - cpuBase
-					cpuBase = now
+				res[i] = Res{Status: f[1], Ms: ms, Peak: pk, Alloc: al, CPUus: cpu, Detail: det, Over: over}
+				if cfg.Note != nil {
+					cfg.Note(&cases[i], &res[i])
 				}
-				i++
+				pending = pending[1:]
+				lastCPU = max(0, procCPUms(ch.cmd.Process.Pid))
 			case <-timer.C:
-				res[i] = Res{Status: "timeout", Ms: cfg.Timeout.Milliseconds(), Detail: fmt.Sprintf("no result within the watchdog cpu=%d", procCPUms(ch.cmd.Process.Pid)-cpuBase)}
-				i++
+				used := max(0, procCPUms(ch.cmd.Process.Pid)-lastCPU) * 1000
+				if cfg.CPUNeed != nil && used < cfg.CPUNeed(&cases[i]) && time.Since(headStart) < cfg.WallCap {
+					ext += 500 * time.Millisecond // not yet conclusive: the decoder has not had its CPU budget
+					continue
+				}
+				res[i] = Res{Status: "timeout", Ms: time.Since(headStart).Milliseconds(), CPUus: used, Detail: "no result within the watchdog"}
+				if cfg.Note != nil {
+					cfg.Note(&cases[i], &res[i])
+				}
 				restart = true
 			}
 		}
+		close(feed)
 		if restart {
 			ch.kill()
+			// the cases handed out after the failed one go to the next child
+			if len(pending) > 0 {
+				next = pending[0] + 1
+				for _, k := range pending[1:] {
+					res[k] = Res{}
+				}
+			}
 		} else {
 			pool.put(ch, cfg)
 		}
